@@ -398,7 +398,12 @@ type Snap struct {
 
 func balKey(supi string, rg int32) string { return fmt.Sprintf("%s/%d", supi, rg) }
 
-func (w *World) Snapshot(withGor bool) Snap {
+func (w *World) Snapshot(withGor bool) (s Snap) {
+	vs.Quiet(func() { s = w.snapshot(withGor) })
+	return
+}
+
+func (w *World) snapshot(withGor bool) Snap {
 	s := Snap{Bal: map[string]string{}, UEs: map[string]UESnap{}, Files: map[string]int{}}
 	for _, d := range mongoapi.Docs[chargingColl] {
 		s.Docs++
